@@ -137,6 +137,13 @@ type jsonRPCEnvelope struct {
 	Method  string          `json:"method,omitempty"`
 }
 
+// ssePendingRequest is a server-issued request waiting for its answer: the channel of the waiting SendRequest
+// call and the session the request was sent to.
+type ssePendingRequest struct {
+	sessionID    string
+	responseChan chan *json.RawMessage
+}
+
 // SSEServer implements a Server-Sent Events (SSE) based MCP server.
 type SSEServer struct {
 	mcpHandler           *mcpHandler                                                // MCP handler.
@@ -766,12 +773,19 @@ func (s *SSEServer) handleResponseMessage(ctx context.Context, rawMessage json.R
 		return
 	}
 
-	// Type assert to the correct channel type.
-	responseChan, ok := responseChanInterface.(chan *json.RawMessage)
+	// Type assert to the pending request.
+	pending, ok := responseChanInterface.(*ssePendingRequest)
 	if !ok {
 		s.logger.Errorf("Invalid response channel type for request ID: %d", requestIDUint)
 		return
 	}
+
+	// Only the session the request was sent to may answer it.
+	if pending.sessionID != session.sessionID {
+		s.logger.Warnf("Ignoring response for request ID %d from session %s: the request was sent to another session", requestIDUint, session.sessionID)
+		return
+	}
+	responseChan := pending.responseChan
 
 	// Prepare response data.
 	var responseMessage *json.RawMessage
@@ -891,7 +905,7 @@ func (s *SSEServer) processRequestAsync(ctx context.Context, request *JSONRPCReq
 
 	// Check if this is a response to our roots/list request.
 	if s.isRootsListResponse(request) {
-		s.handleRootsListResponse(request)
+		s.handleRootsListResponse(request, session)
 		return
 	}
 
@@ -952,7 +966,7 @@ func (s *SSEServer) isRootsListResponse(request *JSONRPCRequest) bool {
 }
 
 // handleRootsListResponse processes responses from clients to our roots/list requests.
-func (s *SSEServer) handleRootsListResponse(request *JSONRPCRequest) {
+func (s *SSEServer) handleRootsListResponse(request *JSONRPCRequest, session *sseSession) {
 	var responseID interface{} = request.ID
 	var responseResult json.RawMessage
 	var responseError json.RawMessage
@@ -1004,12 +1018,19 @@ func (s *SSEServer) handleRootsListResponse(request *JSONRPCRequest) {
 		return
 	}
 
-	// Type assert to the correct channel type.
-	responseChan, ok := responseChanInterface.(chan *json.RawMessage)
+	// Type assert to the pending request.
+	pending, ok := responseChanInterface.(*ssePendingRequest)
 	if !ok {
 		s.logger.Errorf("Invalid response channel type for request ID: %d", requestIDUint)
 		return
 	}
+
+	// Only the session the request was sent to may answer it.
+	if pending.sessionID != session.sessionID {
+		s.logger.Warnf("Ignoring response for request ID %d from session %s: the request was sent to another session", requestIDUint, session.sessionID)
+		return
+	}
+	responseChan := pending.responseChan
 
 	// Handle error response.
 	if len(responseError) > 0 {
@@ -1380,7 +1401,7 @@ func (s *SSEServer) SendRequest(ctx context.Context, sessionID string, request *
 	if s.responses == nil {
 		s.responses = make(map[uint64]interface{})
 	}
-	s.responses[requestIDUint] = resultChan
+	s.responses[requestIDUint] = &ssePendingRequest{sessionID: sessionID, responseChan: resultChan}
 	s.responsesMu.Unlock()
 
 	// Clean up the response channel when done
